@@ -192,6 +192,15 @@ func VX_C14_tojson() {
 		}
 	case "empty":
 		names, cols = []string{"a"}, []vxCol{vxMakeCol("int", P, 0)}
+	case "big":
+		// many rows of concrete cells: the text (> 8 KiB) crosses any internal buffer boundary
+		n = 700
+		P = n
+		ic := vxCol{typ: "int", i: make([]int, n)}
+		for k := range ic.i {
+			ic.i[k] = 1000000 + k
+		}
+		names, cols = []string{"number"}, []vxCol{ic}
 	case "concrete":
 		// concrete cells through the real escaping and digit code
 		strs := []string{"\uFFFD", "\u2028", "a\u2029b", "\u00e9", "\xff", "\xe2\x80", "\xef\xbf", "tab\tq\"b\\", "\x7f\x00", "\U0001F600", ""}
@@ -205,6 +214,11 @@ func VX_C14_tojson() {
 	ix := make([]uint32, n)
 	for k := range ix {
 		ix[k] = uint32(n - k)
+	}
+	if shape == "big" {
+		ix = vxIota(n)
+		k := vxConc(vx.IntN(0, 1), 2) // and the solver picks one of two arrangements
+		ix[0], ix[k*(n-1)] = ix[k*(n-1)], ix[0]
 	}
 	if shape == "concrete" {
 		ix = vxIota(n)
